@@ -17,7 +17,7 @@ CONSTANTS Classifier, MinOne
 VARIABLES cfg, pc, att, delays, res
 lvars == <<cfg, pc, att, delays, res>>
 
-Loads(f)   == f \in {"ok", "empty"}
+Loads(f)   == f \in {"ok", "empty", "utf16"}       \* "utf16": a well-formed list saved as UTF-16 with a byte-order mark
 MainOK     == Loads(cfg.main)
 \* cfg.heal = k >= 1: the environment repairs the file that fails during the wait that follows attempt k (a transient
 \* fault: an editor finishing its write, a mount appearing); 0: the faults are permanent
